@@ -118,6 +118,12 @@ def get_next_imf(X, env_step_size=1, max_iters=1000, energy_thresh=None,
     if envelope_opts is None:
         envelope_opts = {}
 
+    if not np.issubdtype(X.dtype, np.floating):
+        # The stopping rules and the energy threshold square and sum the signal
+        # and the iterate - this must not happen in (wrapping) integer
+        # arithmetic for signals stored as integers
+        X = X.astype(float)
+
     proto_imf = X.copy()
 
     continue_imf = True
